@@ -83,5 +83,18 @@ package parser
 //@   atcall ^c.And( with (callee_a combinator.Parser) requires[first_operand_is_next_level;C07] fnid(callee_a) == fnid(unary)
 //@   atcall ^c.Fmap( with (callee_f func([]combinator.Node) []combinator.Node) requires[built_left_associated;C07] fnid(callee_f) == fnid(mkLeftChain)
 //
+// ---- for loops (C05, C07: "for v1, v2 <- e1, e2": one iterator per variable) -------------------------
+// The compiler treats a For node with different numbers of variables and iterators as an internal fault
+// (For.byteCode panics); the parser is what keeps such a header from being accepted: a For node is only
+// built from a header whose two lists have the same length, and mkFor puts exactly these lists into it.
+//@ func forLoop [C05,C07]
+//@   checks
+//@   modifies *
+//@   atcall mkFor( with (callee_nodes []combinator.Node) requires[header_pairs_up;C05,C07] len(callee_nodes[1].(node.List).Elems) == len(callee_nodes[3].(node.List).Elems)
+//@ func mkFor [C05,C07]
+//@   checks
+//@   ensures[lists_kept;C05,C07] len(result) == 1 && dyntype(result[0]) == typeid[node.For]() && len(result[0].(node.For).VarRefs.Elems) == len(nodes[1].(node.List).Elems)
+//@       && len(result[0].(node.For).Iterators.Elems) == len(nodes[3].(node.List).Elems)
+//
 //@ canary func (tokenWrapper).Wrap
 //@   ensures false
